@@ -11,3 +11,7 @@ for name, src, out in [("scales", "scales.py", "Scales.v")]:
     mod = importlib.import_module(name)
     mod.main(os.path.join(C.SRC, src), os.path.join(C.COQ, "gen", out))
     print("generated", out)
+# C11: util.py + config.py -> ReadSignal.v
+import readsig  # noqa: E402
+readsig.main(os.path.join(C.SRC, "util.py"), os.path.join(C.SRC, "config.py"), os.path.join(C.COQ, "gen", "ReadSignal.v"))
+print("generated", "ReadSignal.v")
